@@ -268,7 +268,7 @@ Qed.
 Lemma unstake_one_pres s a s' : bank_ok s -> unstake_one s a = Some s' -> bank_ok s'.
 Proof.
   unfold unstake_one. intros H. destruct (get_val s a) as [v|]; [|intros [= <-]; auto].
-  destruct (_ || _); [intros [= <-]; auto|]. apply finish_unstaking_pres; auto.
+  destruct (negb _); [intros [= <-]; auto|]. apply finish_unstaking_pres; auto.
 Qed.
 Lemma unstake_mature_pres s s' : bank_ok s -> unstake_mature s = Some s' -> bank_ok s'.
 Proof.
